@@ -1,0 +1,73 @@
+//go:build verif
+
+package dawg
+
+// Accessors for the verification harness (/verif, properties C12, C13, C14).  This file is
+// add-only: it reads unexported state and changes nothing.
+
+// VerifNodeCount is the number of nodes reachable from t, as counted by the library itself
+// (the traversal that GobEncode uses for its header).
+func (t *Dawg) VerifNodeCount() int { return t.numberOfNodes() }
+
+// VerifNode is one node of VerifDump.
+type VerifNode struct {
+	ID       uint64
+	NumWords int
+	Final    bool
+	Labels   []byte
+	Kids     []uint64 // ids of the link targets, in link order
+	KidIdx   []int    // positions of the link targets in the dump (pointer identity)
+}
+
+// VerifDump lists every node reachable from t exactly once (by pointer identity), in
+// depth-first preorder following the links in order, the root first.
+func (t *Dawg) VerifDump() []VerifNode {
+	pos := map[*Dawg]int{}
+	var order []*Dawg
+	var visit func(d *Dawg)
+	visit = func(d *Dawg) {
+		if _, ok := pos[d]; ok {
+			return
+		}
+		pos[d] = len(order)
+		order = append(order, d)
+		for _, k := range d.links {
+			visit(k)
+		}
+	}
+	visit(t)
+	out := make([]VerifNode, len(order))
+	for i, d := range order {
+		n := VerifNode{ID: d.id, NumWords: d.numWords, Final: d.final}
+		n.Labels = append([]byte{}, d.linkLabels...)
+		for _, k := range d.links {
+			n.Kids = append(n.Kids, k.id)
+			n.KidIdx = append(n.KidIdx, pos[k])
+		}
+		out[i] = n
+	}
+	return out
+}
+
+// VerifBuilderState exposes the builder between calls: the automaton under construction (nil
+// before the first use), the previous word and whether it is set, the ids of the registered
+// nodes in register order, and the last id handed out.
+func (db *Builder) VerifBuilderState() (root *Dawg, lastWord []byte, hasLast bool, register []uint64, lastID uint64, done bool) {
+	for _, r := range db.register {
+		register = append(register, r.id)
+	}
+	return db.d, append([]byte{}, db.lastWord...), db.lastWord != nil, register, db.lastID, db.done
+}
+
+// VerifIndex is the position of the pattern searcher in its pattern.
+func (p *PatternSearcher) VerifIndex() int { return p.index }
+
+// VerifState exposes the anagram searcher: the (letter, remaining count) entries in their
+// stored order, the remaining blanks, the target length and the current path.
+func (p *AnagramSearcher) VerifState() (letters []byte, counts []int, blanks int, targetLength int, path []byte) {
+	for _, c := range p.counts {
+		letters = append(letters, c.letter)
+		counts = append(counts, c.count)
+	}
+	return letters, counts, p.blanks, p.targetLength, append([]byte{}, p.currPath...)
+}
